@@ -136,6 +136,12 @@ def Marker.mark (m : Marker) (a : Addr) : Option Bytes :=
     | some none => some []
     | some (some idx) => m.s[idx]?
 
+/-- `cacheCtl.ipMark`: no marker configured or an invalid address ⇒ the empty group -/
+def ipMark (m : Option Marker) (a : Addr) : Option Bytes :=
+  match m with
+  | none => some []
+  | some m => if !a.isValid then some [] else m.mark a
+
 def isSpace (c : UInt8) : Bool := c == 32 || (9 ≤ c && c ≤ 13)
 
 /-- `strings.TrimSpace` restricted to ASCII white space (the generators emit ASCII only) -/
